@@ -10,6 +10,18 @@ namespace h
 {
 using namespace nano;
 
+// sequentialised multi-worker mode of the thread pool (see sre_support.cpp)
+extern size_t g_max_workers;
+extern int    g_sched;
+extern long   g_tasks_run;
+inline size_t setup_workers(long threads, long sched)
+{
+    g_max_workers = threads < 1 ? 1U : static_cast<size_t>(threads);
+    g_sched       = static_cast<int>(sched);
+    g_tasks_run   = 0;
+    return g_max_workers;
+}
+
 // configuration "k1=v1;k2=v2"
 inline std::string cfg(const char* key, const char* def = "")
 {
